@@ -20,6 +20,12 @@ package server
 //@ func ConvertLabelQuery
 //@   props C11 C14
 //@   requires [decoded] termsWF(terms)
+//@   at LabelEqual #1
+//@     assert [invert-per-term] len(opts) == ite(term.Invert, 1, 0)
+//@   at LabelIn #1
+//@     assert [invert-per-term-in] len(opts) == ite(term.Invert, 1, 0)
+//@   at LabelLT #1
+//@     assert [invert-per-term-lt] len(opts) == ite(term.Invert, 1, 0)
 //@ func ConvertIDQuery
 //@   props C11 C14
 //@ func marshalResource
